@@ -10,7 +10,7 @@ ASSUMPTIONS = ["order is compared per port (the property's claim); the relative 
 RULE = ("event sequences over {valid broadcast of each family, foreign bytes, truncated, bit-flipped, unknown model, invalid UTF-8 name, "
         "out-of-range time field} on 1..4 ports with the user's callback raising on chosen invocations; every valid broadcast is "
         "tagged with its port and sequence number in the device name; thorough: every sequence of length <= 3 over the 8-letter "
-        "alphabet on 2 ports; non-trivial = distinct sequences holding a valid broadcast after a bad datagram or a raising callback")
+        "alphabet on 2 ports; byte-identical datagrams repeated on the same and on other ports, sent one at a time; non-trivial = distinct sequences holding a valid broadcast after a bad datagram or a raising callback")
 REQUIREMENT = ("per port, the callback log = the decoded devices of exactly the valid broadcasts sent to that port, in sending order "
                "(expected_bcast of Spec/Encoders.v for each), regardless of everything else and of raising callbacks")
 LETTERS = ["wh", "pp", "sh", "th", "foreign", "trunc", "flip", "unknown", "badname", "badtime"]
@@ -88,6 +88,44 @@ def run_sequences(out, stream, cases):
                      impl_spec=[i.split(" ## ")[0] for i in io])
 
 
+def run_repeats(out, stream, cases):
+    """identical datagrams repeated on the same and on other ports, one at a time (no barrier in between): global order is compared"""
+    async def go():
+        res = []
+        for c in cases:
+            ev = [(p, bytes.fromhex(h)) for p, h in c["events"]]
+            log, nh, nw, complete = await world.feed_bridge(c["ports"], ev, set(c["raising"]), c05.show, c06.sentinel, serial=True)
+            res.append(" ".join(log) if complete else "barrier-lost")
+        return res
+    io = asyncio.run(go())
+    mo = []
+    for m in lib.run_model([lib.req("dispatch", [[p, bytes.fromhex(h)] for p, h in c["events"]], c["raising"]) for c in cases]):
+        mo.append(" ".join(l.split(":", 1)[1] for l in m.split("\n")[:-1]))
+    ex = [" ".join(c["expected_global"]) for c in cases]
+    lib.differential(out, stream, cases, io, mo, ex, lambda c: "%d ports, one datagram at a time: %s, callback raises on %s" % (c["ports"], c["letters"], c["raising"]),
+                     nontrivial=lambda c: any(l in ("same", "mirror") for l in c["letters"]), sample=lambda c: {"ports": c["ports"], "letters": c["letters"]},
+                     classify=lambda c, i: "repeats/%d-ports" % c["ports"])
+
+
+def mk_repeats(rnd, n_ports, n):
+    events = []; letters = []; exp = []; last = None
+    for k in range(n):
+        L = rnd.choice(["valid", "valid", "same", "mirror", "mirror", "foreign", "unknown"]) if last else "valid"
+        if L == "valid":
+            p = rnd.randrange(n_ports); d, e = make_event(rnd, rnd.choice(list(FAMILY)), p, k); last = (p, d, e)
+        elif L == "same": p, d, e = last
+        elif L == "mirror":
+            p = rnd.choice([q for q in range(n_ports) if q != last[0]] or [last[0]]); d, e = last[1], last[2]; last = (p, d, e)
+        else:
+            p = rnd.randrange(n_ports); d, e = make_event(rnd, L, p, k)
+            if L == "foreign" and not foreign_is_ignored(d): d = b"\x00" + d[1:]
+        events.append([p, d.hex()]); letters.append(L)
+        if e is not None: exp.append(e)
+    nvalid = len(exp)
+    raising = sorted(rnd.sample(range(nvalid), rnd.randrange(0, nvalid + 1))) if nvalid and rnd.random() < .4 else []
+    return {"ports": n_ports, "letters": letters, "events": events, "raising": raising, "expected_global": exp}
+
+
 def mk(rnd, n_ports, letters, raising=None):
     seq, exp = gen_sequence(rnd, n_ports, letters)
     nvalid = sum(1 for l in letters if l in FAMILY)
@@ -107,7 +145,9 @@ def run(tier, rnd, out):
         n = rnd.choice([1, 2, 3, 8, 30]) if tier == "quick" else rnd.choice([1, 5, 30, 100])
         cs.append(mk(rnd, rnd.randrange(1, 5), [rnd.choice(LETTERS) for _ in range(rnd.randrange(1, n + 1))]))
     run_sequences(out, "sequences-over-udp", cs)
+    run_repeats(out, "repeated-datagrams-one-at-a-time", [mk_repeats(rnd, rnd.randrange(1, 4), rnd.randrange(2, 12)) for _ in range(60 if tier == "quick" else 600)])
     out.exhaustive = tier == "thorough"
 
 
-def replay(rp, out): run_sequences(out, rp.get("stream", "replay"), [rp["input"]])
+def replay(rp, out):
+    (run_repeats if "expected_global" in rp["input"] else run_sequences)(out, rp.get("stream", "replay"), [rp["input"]])
